@@ -378,7 +378,12 @@ def rule_glob_instance_state(ctx: Ctx, rule: str) -> None:
     ig = repo.func('glob', 'iglob')
     ok2 = any(isinstance(c, ast.Call) and norm_src(c.func) == 'Glob' for c in walk_no_nested(ig.node))
     ctx.ob(rule, 'glob:iglob/new-Glob-per-call', ok2, repo.loc('glob', ig.node), 'constructs Glob(...) inside the call', str(ok2))
-    for meth in ('match', 'filter'):
+    from .common import api_table
+    helpers = {f.fq for f in repo.cls('_wcmatch', 'WcRegexp').methods.values()}
+    for meth, arg in (('match', 'filename'), ('filter', 'filenames')):
         f = repo.func('_wcmatch', f'WcRegexp.{meth}')
-        ok3 = any(isinstance(c, ast.Call) and norm_src(c.func) == '_Match' for c in walk_no_nested(f.node))
-        ctx.ob(rule, f'_wcmatch:WcRegexp.{meth}/new-_Match-per-name', ok3, repo.loc('_wcmatch', f.node), '_Match(...) per file name', str(ok3))
+        _ev, paths = api_table(repo, '_wcmatch', f'WcRegexp.{meth}', inline=True, inline_only=helpers)
+        live = [p for p in paths if p.decisions.get(arg) is not False]
+        ok3 = bool(live) and all(len(p.calls_to('_wcmatch:_Match')) == 1 and
+                                 (meth == 'match' or any(c.startswith('for:filenames') for c in p.calls_to('_wcmatch:_Match')[0][3])) for p in live)
+        ctx.ob(rule, f'_wcmatch:WcRegexp.{meth}/new-_Match-per-name', ok3, repo.loc('_wcmatch', f.node), 'a fresh _Match(...) per file name', str(ok3))
